@@ -134,6 +134,16 @@ pub fn profile(prop: Prop, thorough: bool) -> Profile {
             p.elem = [2, 7, 1];
             p.forget = true;
         }
+        Prop::C07 => {
+            p.weights = cat(&[MAP_BASIC, &scale(HANDLES, 2, 1), &scale(MOVERS, 2, 1), &scale(SET_BASIC, 1, 3), &[(G::CloneTo, 3), (G::CloneFrom, 4), (G::SCloneFrom, 1)]]);
+            p.maps = 2;
+            p.sets = 1;
+            p.elem = [3, 8, 1];
+            p.max_len = 40;
+            p.max_universe = 256;
+            p.long_runs = false;
+            p.cancel = true;
+        }
         Prop::C08 => {
             p.weights = cat(&[&scale(MAP_BASIC, 1, 2), &scale(HANDLES, 1, 4), &scale(MOVERS, 1, 1), &[(G::IterCheck, 30), (G::Drain, 8), (G::IntoIter, 6), (G::SIterCheck, 10), (G::SDrain, 4), (G::SIntoIter, 3), (G::SInsert, 20), (G::SRemove, 8), (G::SRetain, 2), (G::SReserve, 2)]]);
             p.sets = 1;
